@@ -447,6 +447,13 @@ class Impl:
                 return '(ok)'
             if not isinstance(s, list) or not s:
                 return 'bad-op'
+            if s[0] == 'pickle_save':
+                self.saved = pickle.dumps(self.spec(s[1]))
+                return '(ok)'
+            if s[0] == 'pickle_load':
+                if getattr(self, 'saved', None) is None:
+                    return 'bad-op'
+                return render([A('ok'), self.u.enc_spec(pickle.loads(self.saved))])
             with warnings.catch_warnings():
                 warnings.simplefilter('ignore')
                 out = self.eval(s)
